@@ -128,7 +128,8 @@ def _z3new(smt, want_model):
 def solve_one(job):
     """job = (idx, smt2 text, want_model) -> (idx, verdict, model, backend,
     seconds, log)"""
-    idx, smt, want_model = job
+    idx, smt, want_model = job[:3]
+    quick_only = len(job) > 3 and job[3]
     log = []
     total = 0.0
     try:
@@ -140,6 +141,8 @@ def solve_one(job):
     log.append('z3:%s:%.2fs' % (v, dt))
     if v != 'unknown':
         return idx, v, m, 'z3', total, log
+    if quick_only:
+        return idx, 'unknown', None, 'none', total, log
     if os.environ.get('PYVC_NO_FALLBACK') != '1':
         try:
             v, m, dt = _cvc5(smt, want_model)
